@@ -94,7 +94,8 @@ def main():
     p = Path("/verif/DESIGN.md")
     s = p.read_text()
     if "<!-- SEEDED-BEGIN -->" in s:
-        s = re.sub(r"<!-- SEEDED-BEGIN -->.*<!-- SEEDED-END -->\n", "<!-- SEEDED-BEGIN -->\n" + txt + "<!-- SEEDED-END -->\n", s, flags=re.S)
+        new_block = "<!-- SEEDED-BEGIN -->\n" + txt + "<!-- SEEDED-END -->\n"
+        s = re.sub(r"<!-- SEEDED-BEGIN -->.*<!-- SEEDED-END -->\n", lambda m: new_block, s, flags=re.S)     # (a function: no escape processing)
     else:
         s = s.replace("## Appendix A", "<!-- SEEDED-BEGIN -->\n" + txt + "<!-- SEEDED-END -->\n## Appendix A", 1)
     p.write_text(s)
